@@ -524,6 +524,11 @@ def analyse(case):
         cl.add("graph:parallel-edges")
     if len({r["id"] for r in rels}) < len(rels):
         cl.add("graph:relationship-with-several-versions")
+        byid = {}
+        for r in rels:
+            byid.setdefault(r["id"], set()).add((r["source_ref"], r["target_ref"]))
+        if any(len(v) > 1 for v in byid.values()):
+            cl.add("graph:relationship-version-with-other-endpoints")
     cl.add("graph:relationships:%s" % ("0" if not rels else "1-3" if len({r["id"] for r in rels}) <= 3 else "4+"))
     if newest_not_first:
         cl.add("newest-version-not-in-first-member")
@@ -593,7 +598,18 @@ def configuration(draw):
         ov = {"id": G.oid("relationship", 0xa0 + r), "source_ref": draw(ends), "target_ref": draw(ends), "relationship_type": draw(st.sampled_from(REL_TYPES))}
         if draw(st.integers(0, 5)) == 0:
             ov["target_ref"] = ov["source_ref"]
-        pop.extend(draw(G.versions_of(t, 0, 2, ov)))
+        rvs = draw(G.versions_of(t, 0, 2, ov))
+        if len(rvs) > 1 and draw(st.integers(0, 2)) == 0:
+            # a later version of the relationship connects other objects (re-targeted or reversed): navigation works on stored VERSIONS
+            how = draw(st.sampled_from(["reverse", "retarget", "resource"]))
+            for v in rvs[1:]:
+                if how == "reverse":
+                    v["source_ref"], v["target_ref"] = v["target_ref"], v["source_ref"]
+                elif how == "retarget":
+                    v["target_ref"] = draw(ends)
+                else:
+                    v["source_ref"] = draw(ends)
+        pop.extend(rvs)
     nm = draw(st.sampled_from([2, 2, 3, 3, 3, 4]))
     members = [{"kind": draw(st.sampled_from(["memory", "memory", "fs"])), "bundlify": draw(st.sampled_from([False, False, True]))} for _ in range(nm)]
     # mostly one holder per (id, version), sometimes several: members then really hold different parts of the graph
@@ -639,7 +655,7 @@ def configuration(draw):
 
 
 REQUIRED_CLASSES = ["newest-version-not-in-first-member", "copy-in-several-members", "relationship-apart-from-endpoint", "nested-composite", "member:fs",
-                    "member:memory", "graph:self-loop", "graph:parallel-edges", "graph:relationship-with-several-versions", "probe:query", "probe:rels",
+                    "member:memory", "graph:self-loop", "graph:parallel-edges", "graph:relationship-with-several-versions", "graph:relationship-version-with-other-endpoints", "probe:query", "probe:rels",
                     "probe:related", "probe:creator", "route:composite", "route:env", "route:store", "route:source", "argform:id", "argform:dict",
                     "argform:object", "argform:absent-id", "nav:both-flags", "nav:source_only", "nav:target_only", "nav:relationship_type", "nav:extra-filters",
                     "filter-route:arg", "filter-route:comp", "filter-route:member", "query-route:env",
@@ -670,7 +686,7 @@ def run(ctx):
         ctx.note(case, nt, cl)
         ctx.handle(case, fails)
 
-    core.run_given(ctx, configuration(), body, ctx.n(340, 2000), label="c18-configurations")
+    core.run_given(ctx, configuration(), body, ctx.n(300, 2000), label="c18-configurations")
     if ctx.evaluations >= 300:
         core.health(ctx, REQUIRED_CLASSES)
         ctx.notes["generator-health"] = "all %d required classes >= 1%% of evaluations" % len(REQUIRED_CLASSES)
